@@ -57,8 +57,69 @@ def main(short=False):
             same2 = other == mine
             print(f"[selftest] {p}: determinism across PYTHONHASHSEED 0 vs 4242 in a fresh interpreter = {'ok' if same2 else 'DIFF'}")
             ok = ok and same2
+    ok = _fresh_interpreter_equals_fork(4 if short else 40) and ok
+    if not short:
+        ok = _faults_fire() and ok
     print("[selftest] " + ("PASS" if ok else "FAIL"))
     return 0 if ok else 2
+
+
+def _fresh_interpreter_equals_fork(n):
+    """A sample of operations evaluated in pristine forked children and in real fresh interpreters must agree."""
+    import random
+    import tempfile
+    from checks import c14
+    runner = ex.Runner("fresh", timeout_s=60)
+    bad = 0
+    done = 0
+    try:
+        for i in range(n):
+            rng = random.Random(util.derive_seed(0, "selftest-fresh", i))
+            world = c14.make_world(rng)
+            files = world[0]
+            ops = [op for op in c14.make_history(rng, world, with_faults=(i % 2 == 1)) if op["op"] == "match"][:4]
+            runner.materialise(files)
+            for op in ops:
+                forked = ex.run_child(runner.root, [op], 0, 60)["outcomes"][0]
+                runner.reset(files)
+                with tempfile.NamedTemporaryFile("w", suffix=".json", dir=runner.dir, delete=False) as fh:
+                    json.dump([op], fh)
+                    opsfile = fh.name
+                env = dict(os.environ, PYTHONPATH=driver.VERIF, PYTHONHASHSEED="0", PYTHONDONTWRITEBYTECODE="1")
+                p = subprocess.run([sys.executable, "-B", "-m", "sim.fresh", runner.root, opsfile], env=env, capture_output=True, text=True, cwd=driver.VERIF)
+                os.remove(opsfile)
+                runner.reset(files)
+                try:
+                    fresh = json.loads(p.stdout.strip().split("\n")[-1])["outcomes"][0]
+                except Exception:  # noqa: BLE001
+                    print("[selftest] fresh interpreter run failed:", p.stderr[-400:])
+                    bad += 1
+                    continue
+                done += 1
+                a = forked[:2] if forked[0] == "exc" else forked
+                b = fresh[:2] if fresh[0] == "exc" else fresh
+                if json.loads(json.dumps(a)) != b:
+                    bad += 1
+                    print(f"[selftest] fork != fresh interpreter for {op.get('_tag')}: {str(a)[:120]} vs {str(b)[:120]}")
+    finally:
+        runner.close()
+    print(f"[selftest] pristine fork == fresh interpreter on {done} operations: {'ok' if bad == 0 else 'DIFF'}")
+    return bad == 0
+
+
+def _faults_fire():
+    """Every fault kind of the catalogue must actually have fired in a modest C17 batch."""
+    _c, m = _digests("C17", 64, 16)
+    fired = m["counters"].get("faults_fired", {})
+    need = ["eacces:rule", "emfile:rule", "eio_read:rule", "enoent:rule", "eisdir:rule", "bad_utf8:rule", "enoent:input", "eio_read:input",
+            "exists_false:binary", "prog_absent:objdump", "rc1_nostdout:objdump", "killed_torn_midline:objdump", "not_elf:binary",
+            "regex_timeout_at_start:search", "regex_timeout_at_start:finditer", "regex_timeout_after_k_matches:finditer", "log_mkdir_eacces", "log_open_eacces", "log_write_enospc", "log_dir_is_file",
+            "D:malformed:torn", "D:pattern_missing", "D:mfm_str", "D:sections_str", "D:var_badhex", "D:empty_group:$or:ins", "D:not_arity:2:ins",
+            "D:deref_no_main_reg:rest", "D:times_negative:int:inner:name", "D:times_inverted:sibling:name+ops", "D:undefined_macro:item",
+            "D:undefined_macro:key_times", "D:macro_file_empty", "enoent:macrofile"]
+    missing = [k for k in need if not fired.get(k)]
+    print(f"[selftest] C17 fault kinds fired at least once in 64 workloads: {len(need) - len(missing)}/{len(need)}" + (f" MISSING {missing}" if missing else ""))
+    return not missing
 
 
 def digest_only(prop, runs):
